@@ -398,8 +398,13 @@ class InProtocolBase(ProtocolMixin):
         else:
             microsec = min(999999, int(round(float(microsec) * 1e6)))
 
-        return time(int(fields['hr']), int(fields['min']),
+        try:
+            return time(int(fields['hr']), int(fields['min']),
                                                    int(fields['sec']), microsec)
+        except ValueError as e:
+            # e.g. hour must be in 0..23
+            raise ValidationError(string,
+                                      "%r: " + str(e).replace("%", "%%"))
 
     def time_from_bytes(self, cls, string):
         if isinstance(string, six.binary_type):
@@ -454,7 +459,12 @@ class InProtocolBase(ProtocolMixin):
                                                    for x in ("tz_hr", "tz_min")]
                 if match.group("tz_hr").startswith('-'):
                     tz_min = -tz_min
-                tz = FixedOffset(tz_hr * 60 + tz_min, {})
+                try:
+                    tz = FixedOffset(tz_hr * 60 + tz_min, {})
+                except ValueError as e:
+                    # absolute offset is too large
+                    raise ValidationError(string,
+                                      "%r: " + str(e).replace("%", "%%"))
                 retval = _parse_datetime_iso_match(match, tz=tz)
                 if astz is not None:
                     retval = retval.astimezone(astz)
@@ -660,11 +670,18 @@ def _parse_datetime_iso_match(date_match, tz=None):
         # datetime can handle.
         usecond = min(999999, int(round(float(usecond) * 1e6)))
 
-    if hour == 24 and minute == 0 and second == 0 and usecond == 0:
-        # xs:dateTime allows 24:00:00 to denote the first instant of the next day
-        return datetime(year, month, day, 0, 0, 0, 0, tz) + timedelta(days=1)
+    try:
+        if hour == 24 and minute == 0 and second == 0 and usecond == 0:
+            # xs:dateTime allows 24:00:00 to denote the first instant of the
+            # next day
+            return datetime(year, month, day, 0, 0, 0, 0, tz) + timedelta(days=1)
 
-    return datetime(year, month, day, hour, minute, second, usecond, tz)
+        return datetime(year, month, day, hour, minute, second, usecond, tz)
+
+    except (ValueError, OverflowError) as e:
+        # e.g. month must be in 1..12
+        raise ValidationError(date_match.string,
+                                      "%r: " + str(e).replace("%", "%%"))
 
 
 _dt_sec = lambda cls, val: \
